@@ -15,7 +15,9 @@ Half == Rat(1, 2)
 R(a, b, p, f) == Row([a |-> a, b |-> b, n |-> ObjV([p |-> p]), f |-> BoolV(f)])
 Rows == {R(NumV(1), NumV(2), NumV(5), TRUE), R(NumV(3), Half, NumV(1), FALSE),
          R(NumV(-2), NumV(2), NumV(0), TRUE), R(NumV(0), NumV(3), NumV(2), FALSE),
-         R(Null, NumV(1), NumV(4), TRUE)}
+         R(Null, NumV(1), NumV(4), TRUE),
+         \* a ragged table: this row has no key b at all (a reference to it yields NULL - whatever an earlier row held)
+         Row([a |-> NumV(2), n |-> ObjV([p |-> NumV(1)]), f |-> BoolV(TRUE)])}
 
 A == Col("a")
 B == Col("b")
